@@ -10,3 +10,8 @@ NA["C18"] = "arithmetic identity over all offsets with carries; needs a bit-vect
 NA["C19"] = "LEB128 round-trip/minimality/limits are value-level properties of byte loops; needs loop invariants (solver/proof family) (DESIGN.md section 5)"
 NA["C22"] = "Apply(before, diff)==after is a value-level property of a vendored LCS algorithm; no necessary structural clause; a fork-diff would be a brittle proxy (DESIGN.md section 5)"
 NA["C31"] = "differential behaviour of the vendored wazero engine over all modules; no Wa-specific table to cross-check (DESIGN.md section 5)"
+AST_BASE = "trusted: go/types, go/packages (x/tools v0.29.0), Go 1.23.5; the embedded reference tables in the checker (WebAssembly instruction table etc.)"
+CLAIMED["C04"] = (
+ "table agreement and index-space lint over the type-checked AST (switch-arm extraction vs. embedded WebAssembly opcode table)",
+ "Decides, exhaustively over all ~175 instruction tokens, that each assembler arm appends the specification's opcode bytes for the mnemonic the token spells, that parser and assembler agree on the AST type per token, that default alignments are natural, and that every position-to-index site builds imports-then-definitions / params-then-locals indices. Does not decide LEB128 immediates, label depths, or module validity.",
+ AST_BASE)
